@@ -166,14 +166,21 @@ func wfCheck(toks []cutTok) string {
 	if len(stack) == 1 {
 		return "dangling" // only reader macros so far, or nothing
 	}
-	for _, f := range stack {
-		if f.pending > 0 {
+	// closing brackets alone complete the text iff the innermost open collection owes nothing (no reader macro waiting
+	// for its operand, no map key waiting for its value) and, in every enclosing frame, the collection that is still open
+	// is the LAST form owed (`^{:doc "x"} [1 2` yes; `^[1 2` no: the form the metadata belongs to is still missing)
+	for i, f := range stack {
+		if i == len(stack)-1 {
+			if f.pending > 0 || (f.isMap && f.n%2 == 1) {
+				return "dangling"
+			}
+			continue
+		}
+		if f.pending > 1 {
 			return "dangling"
 		}
-	}
-	for _, f := range stack[1:] {
-		if f.isMap && f.n%2 == 1 {
-			return "dangling"
+		if f.pending == 0 && (f.isSet || (f.isMap && f.n%2 == 0)) {
+			return "nospec" // an open collection in set-member / map-key position
 		}
 	}
 	return "incomplete:" + stack[len(stack)-1].closer
